@@ -57,7 +57,7 @@ CHECKS = {
     note=sysnote(""),
     technique="TLA+ system spec (PSRun.tla) model-checked by TLC + trace validation of recorded runs (PSRunTrace.tla)", design="DESIGN.md §4 C14"),
  "C15": dict(level="model_checking",
-    text="PARTIAL: the hierarchical model is decided with HGMSplit.tla (split loop with a nondeterministic BIC/partition oracle: labels are a partition, K <= cap, accepted splits have both children >= min_points, small clusters never split, predict in [0,K)); every terminal behaviour is replayed into the real HierarchicalGaussianMixture with GaussianMixture scripted from the oracle, and the split sequence of real fits on generated data (10 data kinds x 9 weight kinds, normalize on/off, caps as the sampler sets them) is validated by TLC against HGMTrace.tla. The EM mixture invariants (weights, symmetry, PSD, mean in bounding box) are MONITORED on every real fit and escalated only when gross, on clearly well-posed input and reproducible; the integer-weight = replication equivalence is not addressed; tied/spherical excluded.",
+    text="PARTIAL: the hierarchical model is decided with HGMSplit.tla (split loop with a nondeterministic BIC/partition oracle: labels are a partition, K <= cap, accepted splits have both children >= min_points, small clusters never split, predict in [0,K)); every terminal behaviour is replayed into the real HierarchicalGaussianMixture with GaussianMixture scripted from the oracle, and the split sequence of real fits on generated data (10 data kinds x 9 weight kinds, normalize on/off, caps as the sampler sets them) is validated by TLC against HGMTrace.tla. Integer sample weights = replication is decided relationally for GaussianMixture ('full' and 'diag'): GMMPair.tla couples fit(X, k) and fit(repeat(X, k)) in lock-step at the grain of one EM iteration (same picks, same parameters and lower bound at 1e-9, same convergence decision on exact ranks, same fitted model, predictions and BIC) and TLC validates the recorded pairs. The remaining EM mixture invariants (weights, symmetry, PSD, mean in bounding box) are MONITORED on every real fit and escalated only when gross, on clearly well-posed input and reproducible; tied/spherical excluded; the replication coupling is not claimed for the hierarchical model (its BIC ignores weights by design).",
     note="Trusted: TLC; scipy's multivariate normal; monitoring of the numerical EM routine is not a decision by the model.",
     technique="TLA+ specs (HGMSplit.tla, HGMTrace.tla) model-checked by TLC; scripted replays and trace validation of real fits; monitored predicates for EM", design="DESIGN.md §4 C15"),
  "C16": dict(
